@@ -268,6 +268,13 @@ def check(ctx):
     ctx.check(len(incs) == 1, "C02.c", "%s:one-counter-increment" % fk, "%s:%d" % (R.file, R.line),
               "exactly one non-constant write to the counter", "%d non-constant writes to the tree counter" % len(incs))
 
+    # the queue operations the runner relies on keep every element (shared with C12.b): push adds at the back,
+    # append keeps the existing elements and adds the argument, remove hands out the whole queue
+    import c12
+    import core as _core
+    nq = _core.adopt(ctx, c12, lambda o: o["rule"] == "C12.b", "C02.c")
+    ctx.floor("C02.c", nq, 8, "shared queue-operation obligations (C12.b)")
+
     # --- C02.d each command runs in-line exactly once; who-may-call ---
     applies = [b for b in A.command_apply_impls(prog) if b.file.endswith("react/commands.rs") or "react::" in b.path]
     applies = [b for b in applies if b.calls_named(lambda n: n == R.path) or "react::commands" in b.path]
